@@ -3,7 +3,10 @@ package main
 import (
 	"encoding/json"
 	"fmt"
+	"path"
 	"strings"
+
+	"github.com/echovault/sugardb/verifrt"
 )
 
 // C10 — snapshots are crash-atomic.
@@ -151,6 +154,83 @@ func (c10Check) Run(u Unit, w *Worker) UnitResult {
 				Detail: fmt.Sprintf("snapshot attempt returned %q but LASTSAVE moved %d -> %d", lastOut.Err, run.States[last-1].Dump.LatestSnapshot, run.States[last].Dump.LatestSnapshot)})
 		}
 	}
+	// I/O errors inside the last snapshot: every file operation of the attempt fails once (fault enumeration).  An attempt
+	// that reports a failure must leave LASTSAVE where it was and a restart must still restore the previous snapshot (or
+	// nothing, if there was none); a retry a moment later must succeed and then restore the current dataset.
+	for k := run.Begin[last] + 1; k <= run.Ack[last]; k++ {
+		if run.Journal[k].Kind == verifrt.FSMark {
+			continue
+		}
+		resetEnv(1)
+		fsk := verifrt.NewMemFS()
+		verifrt.SetFS(fsk)
+		wk := &World{cfg: cfg, fs: fsk}
+		ink, err := newInstance(cfg)
+		if err != nil {
+			continue
+		}
+		wk.in = ink
+		fsk.Mark("start")
+		var before, after *State
+		var outk StepOut
+		dead := false
+		for i, act := range hist {
+			fsk.Mark(fmt.Sprintf("begin:%d", i))
+			if i == last {
+				before = wk.State()
+				fsk.FailAt(k)
+			}
+			outk = wk.Do(act)
+			if outk.Hang || outk.Panic != "" || wk.Dead() {
+				dead = true
+				break
+			}
+			fsk.Mark(fmt.Sprintf("ack:%d", i))
+		}
+		res.Stats["io_error_points"]++
+		opDesc := fmt.Sprintf("%s:%s", path.Base(run.Journal[k].Path), run.Journal[k].Kind)
+		if dead {
+			res.Findings = append(res.Findings, Finding{Prop: "C10", Kind: "io-error", Sig: "io-error|" + shape + "|at " + opDesc + "|panic-or-hang",
+				Detail: fmt.Sprintf("an I/O error at %s during the snapshot: %s", opDesc, outk.Brief()), Replay: map[string]any{"history": pathString(hist), "fail_at": k}})
+			wk.Close()
+			continue
+		}
+		after = wk.State()
+		if fsk.Injected() > 0 && outk.Err != "" {
+			res.Stats["io_errors_reported_by_the_attempt"]++
+			if before.Dump.LatestSnapshot != after.Dump.LatestSnapshot {
+				res.Findings = append(res.Findings, Finding{Prop: "C10", Kind: "io-error", Sig: "io-error|" + shape + "|failed-attempt-changed-lastsave",
+					Detail: fmt.Sprintf("the snapshot attempt failed (%s at %s) but LASTSAVE moved %d -> %d", outk.Err, opDesc, before.Dump.LatestSnapshot, after.Dump.LatestSnapshot),
+					Replay: map[string]any{"history": pathString(hist), "fail_at": k}})
+			}
+			// retry a moment later: it must succeed, and a restart must then restore the current dataset's keys
+			wk.Do(adv(5))
+			retry := wk.Do(Action{K: "snap"})
+			if retry.Err != "" || retry.Panic != "" || retry.Hang {
+				sig := "io-error|" + shape + "|retry-refused"
+				if strings.Contains(retry.Err, "JSON") {
+					// the failed attempt left manifest.bin truncated or half written: one root cause whatever the history
+					sig = "io-error|retry-refused|the manifest is unreadable after a failed rewrite"
+				}
+				res.Findings = append(res.Findings, Finding{Prop: "C10", Kind: "io-error", Sig: sig,
+					Detail: fmt.Sprintf("after a failed attempt (%s at %s) the retried snapshot answered %s although the dataset was never saved", outk.Err, opDesc, retry.Brief()),
+					Replay: map[string]any{"history": pathString(hist), "fail_at": k}})
+			} else {
+				want := alphaKeyList(wk.State().Alpha.DropExpired(verifrt.Now().UnixMilli()))
+				rec := recoverImage(cfg, fsk.Clone())
+				if rec.World != nil {
+					rec.World.Close()
+				}
+				if got := alphaKeyList(rec.Alpha); got != want || rec.StartErr != "" || rec.Panic != "" {
+					res.Findings = append(res.Findings, Finding{Prop: "C10", Kind: "io-error", Sig: "io-error|" + shape + "|retry-not-restorable",
+						Detail: fmt.Sprintf("after a failed attempt (%s at %s) and a successful retry a restart restores keys [%s] (start error %q), the dataset has [%s]", outk.Err, opDesc, got, rec.StartErr, want),
+						Replay: map[string]any{"history": pathString(hist), "fail_at": k}})
+				}
+			}
+		}
+		wk.Close()
+	}
+	resetEnv(1)
 	// crash images inside the last snapshot
 	outcomes := map[string]struct{}{}
 	total := run.enumImages(crashOpts{Torn: true, Drop: a.Drop, MaxDrop: 6, From: run.Begin[last], To: run.Ack[last] + 1}, func(img CrashImage) {
